@@ -107,6 +107,10 @@ func (s Segment) Check(params index.Params) error {
 	for {
 		msg, nextPosition, err := log.Read(position)
 		if errors.Is(err, io.EOF) {
+			// less than a message header left is reported as EOF too
+			if err := s.checkEnd(position); err != nil {
+				return err
+			}
 			break
 		} else if err != nil {
 			return err
@@ -131,6 +135,19 @@ func (s Segment) Check(params index.Params) error {
 	return nil
 }
 
+// checkEnd reports corruption if the log continues after position, where a read returned EOF:
+// a partial message header (e.g. a torn append) is not a clean end of the log
+func (s Segment) checkEnd(position int64) error {
+	stat, err := os.Stat(s.Log)
+	if err != nil {
+		return fmt.Errorf("stat log: %w", err)
+	}
+	if stat.Size() > position {
+		return fmt.Errorf("%w: partial message header at %d", message.ErrCorrupted, position)
+	}
+	return nil
+}
+
 func (s Segment) Recover(params index.Params) error {
 	log, err := message.OpenReader(s.Log, s.Offset)
 	if err != nil {
@@ -151,6 +168,10 @@ func (s Segment) Recover(params index.Params) error {
 	for {
 		msg, nextPosition, err := log.Read(position)
 		if errors.Is(err, io.EOF) {
+			// less than a message header left is reported as EOF too
+			if err := s.checkEnd(position); err != nil {
+				corrupted = true
+			}
 			break
 		} else if errors.Is(err, message.ErrCorrupted) {
 			corrupted = true
